@@ -229,7 +229,9 @@ impl Net {
     }
 
     /// inject a forged packet straight into the destination's inbox
-    pub fn inject(&mut self, from: Addr, to: Addr, magic: u16, desc: &MsgDesc) {
+    /// `heard`: the packet carries the link's genuine magic number and address, so the receiving
+    /// endpoint may count it as a sign of life of its peer; foreign packets must not count.
+    pub fn inject(&mut self, from: Addr, to: Addr, magic: u16, desc: &MsgDesc, heard: bool) {
         let msg = build_message(magic, desc);
         let id = self.next_id;
         self.next_id += 1;
@@ -238,7 +240,7 @@ impl Net {
             from,
             to,
             msg,
-            abs: json!(["Forged"]),
+            abs: json!(["Forged", heard]),
             is_input: false,
         });
     }
@@ -247,6 +249,25 @@ impl Net {
     /// kinds: shortStatus, negStart, badPayload, wrongSizeAll, wrongSizeFirst, wrongSizeLast,
     ///        foreignMagic, unknownAddr
     pub fn forge(&mut self, from: Addr, to: Addr, kind: &str, salt: u64, payload: Option<Vec<u8>>) -> Value {
+        // packets of every other kind carrying another session's magic number (from a known address)
+        if let Some(body) = kind.strip_prefix("foreign:") {
+            let magic = *self.link_magic.get(&(from, to)).unwrap_or(&1);
+            let m_magic = {
+                let m = magic.wrapping_add(1 + (salt % 1000) as u16);
+                if m == 0 || m == magic { magic.wrapping_add(7).max(1) } else { m }
+            };
+            let d = match body {
+                "SyncRequest" => MsgDesc::SyncRequest { nonce: 0x5151_0000 + salt as u32 },
+                "SyncReply" => MsgDesc::SyncReply { nonce: 0x5151_0000 + salt as u32 },
+                "InputAck" => MsgDesc::InputAck { ack_frame: (salt % 50) as i32 },
+                "QualityReport" => MsgDesc::QualityReport { frame_advantage: (salt % 7) as i16, ping: salt as u128 },
+                "QualityReply" => MsgDesc::QualityReply { pong: salt as u128 },
+                "ChecksumReport" => MsgDesc::ChecksumReport { frame: (salt % 50) as i32, checksum: salt as u128 },
+                _ => MsgDesc::KeepAlive,
+            };
+            self.inject(from, to, m_magic, &d, false);
+            return json!([kind, from, 0, 0]);
+        }
         let base = self.last_input.get(&(from, to)).cloned();
         // without a genuine input packet on this link (handshake phase, or a spectator -> host link)
         // only forge kinds that do not fabricate well-formed input frames
@@ -322,7 +343,7 @@ impl Net {
             ack_frame,
             bytes: by.clone(),
         };
-        self.inject(m_from, to, m_magic, &d);
+        self.inject(m_from, to, m_magic, &d, m_from == from && m_magic == magic);
         json!([kind, m_from, sf, by.len()])
     }
 
